@@ -1,2 +1,11 @@
 """Region predicates of the open known findings (generic over concrete values and SX terms)."""
 from sx import spec as SP, term as T
+
+
+def wide_product_into_coarser_out(cfg, inp):
+    """C03 register part, multiplication whose exact raw product has more than 53 significant bits, stored into an `out` with fewer fractional bits
+    than the product has: functions.mul scales the integer product by the float 2**(n_frac_out - n_frac_x - n_frac_y)"""
+    if cfg.get('part') != 'register' or cfg.get('op') != 'mul' or cfg.get('n_frac', 0) <= 0:
+        return False
+    p = T.imul(inp['a'], inp['b'])
+    return T.b_not(T.fits53(p))            # more than 53 significant bits: the product is not a double
